@@ -3,7 +3,7 @@ CONSTANTS
   SpuriousPass = FALSE
   AllSchedules = FALSE
   PermuteModules = FALSE
-  TypeNames = {"X", "u16"}
+  TypeNames = {"X", "u16", "void"}
   DefSets <- AllDefSets
   UseSeqs <- Q2UseSeqs
   Perts <- NoPerts
